@@ -49,6 +49,15 @@ func c17Universe() []numVal {
 		numVal{"u8_4", uint8(4), rat(4, 1), "int", ""}, numVal{"u_2", uint(2), rat(2, 1), "int", ""}, numVal{"u64_5", uint64(5), rat(5, 1), "int", ""},
 		numVal{"i32_0", int32(0), rat(0, 1), "int", ""}, numVal{"u16_0", uint16(0), rat(0, 1), "int", ""},
 		numVal{"f32_2_5", float32(2.5), rat(5, 2), "float", ""}, numVal{"f32_0", float32(0), rat(0, 1), "float", ""})
+	// floats a few ulps away from a whole number (they are not whole: ceil and floor must tell)
+	for _, k := range []float64{0, 1, 3, -2, 1024, 1 << 40} {
+		for _, f := range []float64{math.Nextafter(k, k+1), math.Nextafter(k, k-1), k + 1.0/(1<<50)*math.Max(1, math.Abs(k)), k - 1.0/(1<<50)*math.Max(1, math.Abs(k))} {
+			if f == k || math.Abs(f) < 1e-300 {
+				continue // (denormals overflow every division: what an overflowing result prints as is not stated)
+			}
+			out = append(out, numVal{"near_" + strconv.FormatFloat(f, 'g', -1, 64), f, new(big.Rat).SetFloat64(f), "float", ""})
+		}
+	}
 	// float32 operands whose shortest decimal spelling is NOT their value: widening must be exact
 	for _, f := range []float32{0.1, 1 << 31, 1.0 / (1 << 20), 16777216, 3.3, 1e10, -0.7, 123456.79} {
 		out = append(out, numVal{"f32_" + strconv.FormatFloat(float64(f), 'g', -1, 32), f, new(big.Rat).SetFloat64(float64(f)), "float", ""})
